@@ -221,18 +221,30 @@ func hbBody(h hbScript) vsched.Body {
 		}
 		var wire []int // instants at which the client saw a ping (v4) / a pong (v3)
 		now := func() int { return int(x.Now() / hbUnit) }
+		// a conformant polling client has one data request outstanding at a time
+		posting := false
+		post := func(pk []Pkt) {
+			vsched.WaitFor(0, "client-data-request-slot", func() bool { return !posting })
+			if s.pc == nil {
+				// the session has been upgraded meanwhile
+				s.ws.SendPkt(pk[0])
+				return
+			}
+			posting = true
+			r := s.pc.Post(pk)
+			r.Wait()
+			posting = false
+		}
 		sendPong := func() {
 			if s.pc != nil {
-				r := s.pc.Post([]Pkt{{Type: '3'}})
-				r.Wait()
+				post([]Pkt{{Type: '3'}})
 			} else {
 				s.ws.SendPkt(Pkt{Type: '3'})
 			}
 		}
 		sendPing := func() {
 			if s.pc != nil {
-				r := s.pc.Post([]Pkt{{Type: '2'}})
-				r.Wait()
+				post([]Pkt{{Type: '2'}})
 			} else {
 				s.ws.SendPkt(Pkt{Type: '2'})
 			}
@@ -355,8 +367,7 @@ func hbBody(h hbScript) vsched.Body {
 			vsched.GoNamed("client-msg", func() {
 				vsched.SleepUntil(at)
 				if s.pc != nil {
-					r := s.pc.Post([]Pkt{Msg("m")})
-					r.Wait()
+					post([]Pkt{Msg("m")})
 				} else {
 					s.ws.SendPkt(Msg("m"))
 				}
